@@ -201,6 +201,35 @@ theorem dupOutErrsL_lines : (b : List Stmt) → ∀ e ∈ dupOutErrsL b, e.line 
       · exact Or.inr (dupOutErrsL_lines ss e h)
 end
 
+mutual
+theorem calls_lines : (s : Stmt) → ∀ c ∈ s.calls, c.line ∈ s.lines
+  | .svc c => by simp [Stmt.calls]
+  | .call c => by simp [Stmt.calls, Stmt.lines]
+  | .par cs l => by
+      intro c hc; simp only [Stmt.calls] at hc
+      simp [Stmt.lines]; right; exact ⟨c, hc, rfl⟩
+  | .cond ex p f l => by
+      intro c hc; simp only [Stmt.calls] at hc
+      rcases List.mem_append.1 hc with h | h
+      · simp [Stmt.lines]; right; left; exact callsL_lines p c h
+      · simp [Stmt.lines]; right; right; exact callsL_lines f c h
+  | .cloop par v lim b l => by
+      intro c hc; simp only [Stmt.calls] at hc
+      simp [Stmt.lines]; right; exact callsL_lines b c hc
+  | .wloop ex b l => by
+      intro c hc; simp only [Stmt.calls] at hc
+      simp [Stmt.lines]; right; exact callsL_lines b c hc
+theorem callsL_lines : (b : List Stmt) → ∀ c ∈ callsL b, c.line ∈ linesL b
+  | [] => by simp [callsL]
+  | s :: ss => by
+      intro c hc
+      simp only [callsL] at hc
+      simp only [linesL, List.mem_append]
+      rcases List.mem_append.1 hc with h | h
+      · exact Or.inl (calls_lines s c h)
+      · exact Or.inr (callsL_lines ss c h)
+end
+
 /-- start lines of all definitions and statements of a program -/
 def Prog.nodeLines (p : Prog) : List Nat :=
   p.structs.map (·.line) ++ p.tasks.map (·.line) ++ p.tasks.flatMap (fun t => linesL t.body)
@@ -305,12 +334,13 @@ theorem validate_lines (p : Prog) (errs : List Err) (h : validate p = some errs)
         · exact Or.inr (List.mem_flatMap.2 ⟨t, htp, hl⟩)
     · right
       unfold recursionErrs at he
-      simp only [List.mem_filterMap] at he
-      obtain ⟨t, ht, hte'⟩ := he
-      split at hte'
-      · simp at hte'; subst hte'
-        exact Or.inl (Or.inr (List.mem_map.2 ⟨t, mkEnv_tasks_subset p t ht, rfl⟩))
-      · simp at hte'
+      obtain ⟨t, ht, hte'⟩ := List.mem_flatMap.1 he
+      simp only [List.mem_filterMap] at hte'
+      obtain ⟨c, hc, hce⟩ := hte'
+      split at hce
+      · simp at hce; subst hce
+        exact Or.inr (List.mem_flatMap.2 ⟨t, mkEnv_tasks_subset p t ht, callsL_lines t.body c hc⟩)
+      · simp at hce
     · split at he
       · simp at he
       · simp at he; subst he; exact Or.inl rfl
